@@ -14,6 +14,9 @@ class Universe:
     def __init__(self, ids, prio, nw):
         from pjplan import Task, WBS
         self.tasks = [Task(i, name=f't{n}', prio=p) for n, (i, p) in enumerate(zip(ids, prio))]
+        for n, t in enumerate(self.tasks):
+            # `rank`: like prio, but unset (None) on every third task - sorting siblings by it must be refused (None is not comparable)
+            t.rank = None if n % 3 == 2 else prio[n]
         self.wbs = [WBS() for _ in range(nw)]
         self.m = len(self.tasks)
         self.objs = self.tasks + [w._root() for w in self.wbs]
@@ -184,7 +187,10 @@ def model_op(op):
     if k == 'chMove':
         return op[:5]
     if k == 'chSort':
-        return op[:4]
+        keys = op[2] or []
+        if len(keys) >= 2 and any(kv[1] is None for kv in keys):
+            return ['setParent', 0, 0]      # Python cannot order None: the call raises (TypeError) before anything is written back
+        return [op[0], op[1], [[u_, 0 if v_ is None else v_] for u_, v_ in keys], op[3]]
     if k == 'chReorder':
         return op[:3]
     if k in ('floordiv', 'lshift', 'rshift'):
@@ -267,7 +273,7 @@ def rand_op(u, rnd):
                 b = rnd.choice(ks)
         return ['chMove', h, ts, b, a, single, stale]
     if k == 6:
-        return ['chSort', holder(), None, rnd.random() < 0.5, rnd.choice(['prio', 'id', 'prio', ['prio', 'id'], ['id']]), stale]
+        return ['chSort', holder(), None, rnd.random() < 0.5, rnd.choice(['prio', 'id', 'prio', ['prio', 'id'], ['id']] + (['rank', 'rank'] if getattr(u, 'allow_rank', False) else [])), stale]
     if k == 7:
         h = holder()
         ks = kids(h)
@@ -465,7 +471,7 @@ def _directed_ops(u, rnd):
             for st in ('fresh', 'stale'):
                 add('valid-list-edit', ['chMove', h, [t], anchor, None, True, st])
                 add('valid-list-edit', ['chMove', h, [t], None, anchor, True, st])
-                add('valid-list-edit', ['chSort', h, None, rnd.random() < 0.5, rnd.choice(['prio', 'id']), st])
+                add('valid-list-edit', ['chSort', h, None, rnd.random() < 0.5, rnd.choice(['prio', 'id'] + (['rank'] if getattr(u, 'allow_rank', False) else [])), st])
                 add('valid-list-edit', ['chReorder', h, [u.obj(k).id for k in rnd.sample(ks, rnd.randrange(1, len(ks) + 1))], st])
             two = rnd.sample(ks, 2)
             rest = [k for k in ks if k not in two]
@@ -542,6 +548,7 @@ def random_case(prop, rng, tier):
     prio = [rng.randrange(3) for _ in range(m)]
     case = {'ids': ids, 'prio': prio, 'nw': rng.randrange(1, 4), 'ops': []}
     u = new_universe(case)
+    u.allow_rank = prop in ('C15', 'C16')
     # constructive prefix (two cases in three): grow a forest of some depth and a few links with mostly legal calls, so that
     # the random calls that follow meet ancestors, descendants and linked subtrees at distance > 1
     prefix = []
@@ -715,8 +722,8 @@ def extra_cases(prop, tier, seed):
 WF_CLAUSES = ['listed', 'once', 'forest', 'rootsTop', 'sym', 'dag', 'noAncDep']
 MON_OF = {
     'C01': WF_CLAUSES,
-    'C05': ['uniqueIds', 'tasksLookup', 'rejectIsRuntime'],
-    'C11': ['ownerOk', 'reattach'],
+    'C05': ['uniqueIds', 'tasksLookup', 'rejectIsRuntime', 'memberIffTasks'],
+    'C11': ['ownerOk', 'reattach', 'memberIffTasks'],
     'C15': ['unchangedOnRaise'],
     'C16': ['effect'],
 }
@@ -731,7 +738,8 @@ def project(prop, out, post):
     if prop == 'C01':
         return multiset_state(post)
     if prop == 'C05':
-        return [[r[1], sorted(r[2])] for r in post['t']]
+        # (the owner is part of it: the id test of the setters trusts it as proof of membership)
+        return multiset_state(post)
     if prop == 'C11':
         return [[r[1], sorted(r[2]), r[5]] for r in post['t']]
     if prop == 'C15':
@@ -762,6 +770,13 @@ def judge(prop, case, rec, out):
                                       'pre': st['pre']['t'], 'impl_post': st['post']['t'], 'model_post': o['model']['post']['t']}
         if o.get('mustAccept'):
             feats.add('reattach')
+        if prop in ('C11', 'C05') and 'memberIffTasks' in mon:
+            # judged on the implementation alone: a task reports WBS w exactly when it is listed (once) in w.tasks
+            for wv in st['wbs']:
+                owned = sorted(u for u, r in enumerate(st['post']['t']) if r[5] == wv['w'] and u != wv['w'])
+                if sorted(wv['tasks']) != owned and mon['memberIffTasks']:
+                    mon['memberIffTasks'] = False
+                    info.setdefault('monitor_failures', []).append({'clause': 'memberIffTasks', 'step': i, 'op': st['full_op'], 'tasks': wv['tasks'], 'owned': owned})
         for c in MON_OF[prop]:
             if c in o['mon'] and not o['mon'][c] and mon[c]:
                 mon[c] = False
@@ -838,7 +853,7 @@ def count(prop, tier):
 
 def projection(prop):
     return {'C01': 'per step: parent, owner, children/predecessor/successor lists as multisets',
-            'C05': 'per step: parent and children multisets; WBS.tasks order and wbs[id] lookups are judged by the monitor',
+            'C05': 'per step: parent, owner and children multisets; WBS.tasks order and wbs[id] lookups are judged by the monitor',
             'C11': 'per step: parent, children multiset, owner',
             'C15': 'per step: raised/returned + the full ordered state',
             'C16': 'per step: returned/raised + the full ordered state'}[prop]
